@@ -13,6 +13,8 @@ theorem encryptTdesCbc_16 (K iv d : Bytes) (hK : K.length = 16) (hiv : iv.length
   unfold encryptTdesCbc
   simp only [tdesKeys_16 K hK, encBlock_16, hiv, ne_eq, not_true_eq_false, if_false, bind, Except.bind, pure, Except.pure]
 
+theorem zeros_length (n : Nat) : (zeros n).length = n := by simp [zeros]
+
 theorem tdesE_length (K b : Bytes) : (tdesE K b).length = 8 := desE_length _ _
 theorem tdesD_length (K b : Bytes) : (tdesD K b).length = 8 := desD_length _ _
 
